@@ -24,6 +24,7 @@ func init() {
 			ruleReservedKeysNotDeletable(c, "R12", []string{"", "OPTIONS"}, "removing methods by name never removes the 405 / OPTIONS entries a later request needs (no nil handler after Remove)")
 			ruleSearchTriesEverySibling(c, "R10", []*ssa.Function{c.A.TreeRemove}, "a removed pattern is gone: the lookup of the node to remove tries every sibling")
 			ruleReadersWriteNothing(c, "R13", "tree", "router")
+			ruleExhaustedPathPrefersTheNode(c, "R14")
 		},
 	})
 }
